@@ -153,6 +153,11 @@ type FuncSpec struct {
 	KeepCtx  bool
 	Closures bool
 	Ignore   []string
+	// ---- (C02) LoopStyle "ctl": a range loop whose body BOTH updates variables S of the enclosing function and leaves early
+	// (`return`, `break`, `continue`):  match GoX.loopCtl X S (fun S v => body) with | .inl r => r | .inr S => rest, the body ending in
+	// GoX.Ctl.next S (fall through / continue), GoX.Ctl.brk S (break) or GoX.Ctl.ret r (return).
+	// SliceVars: `var x []T` declares the empty slice, which owns its (nil) backing array: `let x := ([] : List _)`, append is functional.
+	SliceVars bool
 }
 
 // StructLit: `&pkg.T{K: V, ...}` becomes `({ K := V, ... } : Lean)`, restricted to the fields in Keep.
@@ -203,6 +208,13 @@ type tr struct {
 	varTypes    map[string]string    // `var v T` declarations (Imperative): v -> source text of T
 	aliases     map[string][2]string // SliceAlias: v -> (x, n) for `v := x[:n]`
 	errResult   bool                 // Imperative: `err` currently holds the (unchecked) result of a call, as a value of type Go.R Unit
+	ctl         []ctlFrame           // LoopStyle "ctl": the enclosing control loops (innermost last)
+}
+
+// ctlFrame: one enclosing GoX.loopCtl loop: its state tuple and the depth of switch statements at its entry
+type ctlFrame struct {
+	state  string
+	breakK int
 }
 
 func (t *tr) declareFields(fl *ast.FieldList) {
@@ -1129,6 +1141,9 @@ func (t *tr) zeroBind(body ast.Node, v string) string {
 }
 
 func (t *tr) ret(r *ast.ReturnStmt) string {
+	if len(t.ctl) > 0 {
+		return "(GoX.Ctl.ret " + t.ret0(r) + ")" // leaving the function from inside a GoX.loopCtl loop
+	}
 	if t.collect > 0 {
 		return "(.inl " + t.ret0(r) + ")" // leaving the function from inside a GoX.collect loop
 	}
@@ -1438,6 +1453,13 @@ func (t *tr) block(stmts []ast.Stmt, k cont) string {
 					}
 				}
 				if len(vs.Values) != 0 || vs.Type == nil {
+					continue
+				}
+				if at, isSlice := vs.Type.(*ast.ArrayType); isSlice && at.Len == nil && t.spec.SliceVars {
+					for _, n := range vs.Names {
+						t.fresh[n.Name] = true
+						out += "let " + t.ident(n.Name) + " := ([] : List _);\n" + t.pad()
+					}
 					continue
 				}
 				zero := ""
@@ -2021,7 +2043,18 @@ func (t *tr) block(stmts []ast.Stmt, k cont) string {
 			return t.bad("type switch", x)
 		}
 		return t.typeSwitchCases(x, rest)
+	case *ast.BranchStmt:
+		// continue / break of the innermost GoX.loopCtl loop (LoopStyle "ctl"); a `break` inside a switch belongs to the switch
+		if n := len(t.ctl); n > 0 && x.Label == nil && (x.Tok == token.CONTINUE || (x.Tok == token.BREAK && len(t.breakK) == t.ctl[n-1].breakK)) {
+			if x.Tok == token.CONTINUE {
+				return "(GoX.Ctl.next " + t.ctl[n-1].state + ")"
+			}
+			return "(GoX.Ctl.brk " + t.ctl[n-1].state + ")"
+		}
 	case *ast.RangeStmt:
+		if t.spec.LoopStyle == "ctl" {
+			return t.ctlLoop(x, rest)
+		}
 		if t.spec.LoopStyle == "state" {
 			return t.stateLoop(x, rest)
 		}
@@ -2669,4 +2702,40 @@ func (t *tr) stateLoop(x *ast.RangeStmt, rest cont) string {
 		return "(match (GoX.first (β := " + t.rt + ") " + t.expr(x.X) + " (fun " + binders + " =>\n" + t.pad() + "  " + body + ")) with\n" + t.pad() +
 			"| some r__ => r__\n" + t.pad() + "| none =>\n" + t.pad() + rest() + ")"
 	}
+}
+
+// ctlLoop (LoopStyle "ctl"):
+//
+//	for _, v := range X { body }   body assigns variables S of the enclosing function and / or leaves early (return, break, continue)
+//	  ->  match GoX.loopCtl (β := result type) X S (fun S v => body') with | .inl r => r | .inr S => rest
+//
+// body' ends in GoX.Ctl.next S where the Go body falls through or continues, GoX.Ctl.brk S where it breaks, GoX.Ctl.ret r where it returns.
+func (t *tr) ctlLoop(x *ast.RangeStmt, rest cont) string {
+	if x.Value == nil || (x.Key != nil && exprString(x.Key) != "_") || x.Tok != token.DEFINE {
+		return t.bad("control loop over keys / indices", x)
+	}
+	if len(t.ctl) > 0 || t.loop > 0 || t.loopDepth > 0 || t.collect > 0 {
+		return t.bad("nested control loop", x)
+	}
+	state := t.assignedOuter(x.Body)
+	st := "()"
+	if len(state) > 0 {
+		var ss []string
+		for _, s := range state {
+			ss = append(ss, t.ident(s))
+		}
+		st = ss[0]
+		if len(ss) > 1 {
+			st = "(" + strings.Join(ss, ", ") + ")"
+		}
+	}
+	v := t.ident(exprString(x.Value))
+	t.declared[exprString(x.Value)] = true
+	t.ctl = append(t.ctl, ctlFrame{state: st, breakK: len(t.breakK)})
+	t.indent++
+	body := t.block(x.Body.List, func() string { return "(GoX.Ctl.next " + st + ")" })
+	t.indent--
+	t.ctl = t.ctl[:len(t.ctl)-1]
+	return "(match (GoX.loopCtl (β := " + t.rt + ") " + t.expr(x.X) + " " + st + " (fun " + st + " " + v + " =>\n" + t.pad() + "  " + body + ")) with\n" + t.pad() +
+		"| .inl r__ => r__\n" + t.pad() + "| .inr " + st + " =>\n" + t.pad() + rest() + ")"
 }
